@@ -39,12 +39,12 @@ def NK.name : NK → String
   | .PairNode => "PairNode"
 
 /-- the names of the `Node` / `[]Node` fields of the node structs (`fX` = Go field `X`) -/
-inductive Field where
+inductive NField where
   | fNode | fLeft | fRight | fIndex | fFrom | fTo | fArguments | fCond | fExp1 | fExp2
   | fNodes | fPairs | fKey | fValue
   deriving DecidableEq, Repr, Inhabited
 
-def Field.name : Field → String
+def NField.name : NField → String
   | .fNode => "Node" | .fLeft => "Left" | .fRight => "Right" | .fIndex => "Index" | .fFrom => "From"
   | .fTo => "To" | .fArguments => "Arguments" | .fCond => "Cond" | .fExp1 => "Exp1" | .fExp2 => "Exp2"
   | .fNodes => "Nodes" | .fPairs => "Pairs" | .fKey => "Key" | .fValue => "Value"
@@ -56,12 +56,12 @@ inductive SlotKind where
   deriving DecidableEq, Repr, Inhabited
 
 structure Slot where
-  field : Field
+  field : NField
   kind : SlotKind
   deriving DecidableEq, Repr, Inhabited
 
 /-- what node.go can say about a field: its name and whether it is `[]Node` -/
-def Slot.erase (s : Slot) : Field × Bool := (s.field, s.kind == .list)
+def Slot.erase (s : Slot) : NField × Bool := (s.field, s.kind == .list)
 
 abbrev Table := NK → List Slot
 
@@ -85,7 +85,7 @@ inductive SlotVal where
   | absent                    -- the struct has no such field
   deriving Inhabited
 
-def getSlot : Node → Field → SlotVal
+def getSlot : Node → NField → SlotVal
   | unary _ _ x, .fNode => .one x
   | binary _ _ l _, .fLeft => .one l
   | binary _ _ _ r, .fRight => .one r
@@ -112,7 +112,7 @@ def getSlot : Node → Field → SlotVal
   | _, _ => .absent
 
 /-- write into a child field (ill-kinded writes leave the node alone; the walker never makes one) -/
-def setSlot : Node → Field → SlotVal → Node
+def setSlot : Node → NField → SlotVal → Node
   | unary m o _, .fNode, .one x => unary m o x
   | binary m o _ r, .fLeft, .one l => binary m o l r
   | binary m o l _, .fRight, .one r => binary m o l r
